@@ -1,0 +1,38 @@
+//go:build verif
+
+package capacity
+
+// Contracts for govc (see /verif/DESIGN.md, C13): what can be said with per-function contracts about "the keeper never
+// deadlocks or panics". Comment-only; compiled only with -tags verif.
+
+// the plotter queue (priority queue and popped item) is only touched under its own mutex
+//@ type plotterQueue protects Prque, poppedItem reads held[addr(this.Mutex)] writes held[addr(this.Mutex)]
+//@ func (*plotterQueue).Push
+//@   requires lock-entry: pq != nil && !held[addr(pq.Mutex)]
+//@ func (*plotterQueue).Empty
+//@   requires lock-entry: pq != nil && !held[addr(pq.Mutex)]
+//@ func (*plotterQueue).Size
+//@   requires lock-entry: pq != nil && !held[addr(pq.Mutex)]
+//@ func (*plotterQueue).Pop
+//@   requires lock-entry: pq != nil && !held[addr(pq.Mutex)]
+//@ func (*plotterQueue).PopItem
+//@   requires lock-entry: pq != nil && !held[addr(pq.Mutex)]
+//@ func (*plotterQueue).Reset
+//@   requires lock-entry: pq != nil && !held[addr(pq.Mutex)]
+
+// the plotter goroutine holds no keeper lock between its steps
+//@ func (*SpaceKeeper).spacePlotter
+//@   requires lock-entry: sk != nil && skUnlocked(sk)
+//@   loop * invariant no-lock-held-between-steps: skUnlocked(sk)
+
+// a request is handed to the plotter through a bounded channel; the send must not be made while the state lock is
+// held, because the plotter needs that lock to finish its current plot and drain the channel
+//@ func (*SpaceKeeper).PlotWS
+//@   assert-at send hand-off-does-not-block-under-the-state-lock: !held[addr(sk.stateLock)] && !rheld[addr(sk.stateLock)]
+//@ func (*SpaceKeeper).MineWS
+//@   assert-at send hand-off-does-not-block-under-the-state-lock: !held[addr(sk.stateLock)] && !rheld[addr(sk.stateLock)]
+
+// stopping: the quit channel is closed once (the service framework calls OnStop at most once per successful OnStart,
+// and OnStart makes a fresh channel)
+//@ func (*SpaceKeeper).OnStop
+//@   requires started-and-not-yet-stopped: sk != nil && sk.quit != nil && !closed[sk.quit]
